@@ -56,6 +56,14 @@ PROPS = {
         rule='hellos from crypto/tls clients over 6 server names × 5 ALPN lists × 5 version ranges × 3 curve preferences × session cache, resumption hellos after a full in-process handshake (TLS 1.2 ticket, TLS 1.3 PSK), and 6 kinds of byte-level mutation (bit flip, byte overwrite, truncation, extension, dot injection, swap) with the record length fixed up; non-trivial = parser output with at least one extension; distinct = distinct outputs',
         assumptions=['GetConfigForClient of a crypto/tls server reports the hello as the terminating server sees it'],
     ),
+    "C16": dict(
+        lean_modules=["L4.Props.C16", "L4.Expect.C16"],
+        stages=[dict(name="socks5", pkg="./modules/l4socks/", test="TestVerifSocks5", files=["modules/l4socks/verif_common_test.go", "modules/l4socks/verif_socks_test.go"], nq=400, nt=8000)],
+        level_text="Kernel-checked on a model of Provision (commands → rule with the CONNECT+ASSOCIATE default, credentials → authentication required, only non-empty user names can log in) composed with the server dialogue: every outbound action implies that the command is enabled in the provisioned rule and, when credentials are configured, that the client presented a configured (user, password) pair with a non-empty name; an empty user name never authenticates; a disabled command never leads to an action; a client offering only `no authentication` gets no service when credentials are configured. The model is tied to the real handler by an outcome differential over scripted dialogues (method lists, logins, all command codes and address types, placeholder-resolved and unknown commands, empty-name credentials), and the property's predicate is evaluated on the implementation with a loopback target counting outbound connections.",
+        level_note='Trusted: Lean kernel, harness + driver. The dialogue part of the model describes things-go/go-socks5 (third party): validated by the differential, not proved against its source; FQDN requests are resolved by the library before the rule check (only `localhost` is generated); BIND is refused by the library even when enabled.',
+        rule='random configurations (0-3 commands incl. mixed case, `{env.…}` placeholders and unknown names; 0-2 credential entries incl. empty and placeholder names) × clients (1-3 offered methods from {0,1,2,0x80}, 5 users × 4 passwords, commands {1,2,3,0,4,255}, address types IPv4 / FQDN / IPv6 / invalid); non-trivial = dialogue completed; distinct = distinct (case, outcome)',
+        assumptions=['an outbound CONNECT is visible as an accepted connection at the loopback target or as a success reply'],
+    ),
     "C09": dict(
         lean_modules=["L4.Props.C09", "L4.Expect.C09"],
         stages=[dict(name="udp", pkg="./layer4/", test="TestVerifUDP", files=L4 + ["layer4/verif_udp_test.go"], nq=24, nt=400, lean=False)],
